@@ -299,3 +299,12 @@ def cnobs(o):
 
 HEADER = C.CASE_HEADER + ("From OV.Model Require Import Names Schema Validate Frame Dispatch Endpoint Net Shipped "
                           "CaseHistory CaseNet.\n")
+
+
+def loopback_plain(version, action, sreq, sresp, as_dc=False):
+    """A loopback exchange with picklable arguments and result (for runs in a fresh interpreter): request and response
+    given as snake_case dicts; returns (CALL text, handler kwargs, reply text, outcome kind, outcome fields)."""
+    obj = make_request(version, action, sreq, as_dc)
+    res = run_loopback(version, action, obj, lambda kwargs: make_result(version, action, sresp, as_dc))
+    oc = res["outcome"]
+    return (res["call"], res["kwargs"], res["reply"], oc[0], oc[1] if oc[0] in ("result", "ocpp", "exc") else None)
